@@ -170,6 +170,9 @@ func VerifHarness_C20_simple() {
 		for _, x := range all {
 			zzverif.Assert(x != nil && (*x == *a || *x == *b), "All() returns only exits that were added, unaltered")
 		}
+		if same && len(all) == 1 && all[0] != nil {
+			zzverif.Assert(*all[0] == *a, "the exit that was accepted first stays in the pool")
+		}
 	}
 	{
 		p := NewProposerSlashingPool(spec)
